@@ -83,8 +83,9 @@ SILENCE = [
     ('extra-guard', 'src/proportion.rs', '    let n = population as f64;\n    let n_s = successes as f64;', '    if population == 0 {\n        return Err(CIError::TooFewSuccesses(successes, population, 0.));\n    }\n    let n = population as f64;\n    let n_s = successes as f64;', 'added guard that only fires where the same error was returned anyway'),
     ('reorder-statements', 'src/mean.rs', '        self.sum += x;\n        self.sum_sq += x * x;\n        self.count += 1;', '        self.count += 1;\n        self.sum_sq += x * x;\n        self.sum += x;', 'independent statements reordered'),
     ('rename-private-helper', 'src/utils.rs', 'kahan_add', 'compensated_add', 'private helper renamed'),
-    ('neumaier', 'src/utils.rs', '    let sum = *current_sum;\n    let c = *compensation;\n    let y = x - c;\n    let t = sum + y;\n    *compensation = (t - sum) - y;\n    *current_sum = t;',
-     '    let sum = *current_sum;\n    let c = *compensation;\n    let t = sum + x;\n    if sum.abs() >= x.abs() {\n        *compensation = c + ((sum - t) + x);\n    } else {\n        *compensation = c + ((x - t) + sum);\n    }\n    *current_sum = t;', 'Kahan kernel replaced by Neumaier (value() adds the compensation)'),
+    # (a Kahan -> Neumaier conversion used to be listed here; it satisfies the necessary conditions of C08 but is not
+    # behaviour-preserving: without renormalisation its compensation grows, and the pinned suite rejects it on 10^6
+    # f32 terms - it is neither a seed nor a silent rewrite)
 ]
 
 
